@@ -17,6 +17,7 @@ import (
 	"compiler/verifh/c10"
 	"compiler/verifh/c11"
 	"compiler/verifh/c12"
+	"compiler/verifh/c13"
 	"compiler/verifh/c14"
 	"compiler/verifh/c15"
 	"compiler/verifh/c16"
@@ -39,6 +40,7 @@ var checks = map[string]func(*vl.Ctx){
 	"C10": c10.Run,
 	"C11": c11.Run,
 	"C12": c12.Run,
+	"C13": c13.Run,
 	"C14": c14.Run,
 	"C15": c15.Run,
 	"C16": c16.Run,
